@@ -55,8 +55,17 @@ def one(rng):
         role = rng.choice([1, 1, 2, 3])
         keep = j + 1 < k or rng.random() < 0.5
         pairs = rand_pairs(rng, rng.randrange(0, 3), min(30, (B - 13) // 2))
-        pre = flat([begin(rid, role, 1 if keep else 0)] + stream_records(PARAMS, rid, nv_all(pairs), cut_list(rng, len(nv_all(pairs)), "few"), rng))
-        cur += pre
+        pre_recs = [begin(rid, role, 1 if keep else 0)] + stream_records(PARAMS, rid, nv_all(pairs), cut_list(rng, len(nv_all(pairs)), "few"), rng)
+        if rng.random() < 0.2:
+            # a query INSIDE the Params phase, glued to the record that completes the preamble (same segment, hence possibly the same
+            # read and the same parse call); the client waits for the reply before it sends anything of the streams
+            cur += flat(pre_recs[:-1]) + query(rng) + pre_recs[-1]
+            mg += 1
+            place_tags.add("inside-params-glued")
+            flush_seg()
+            cur_gate = (ends, mg)
+        else:
+            cur += flat(pre_recs)
         if rng.random() < 0.3:
             put_query("after-params")
         for t in ROLE_STREAMS[role]:
@@ -148,7 +157,7 @@ def nontrivial(line, tags):
 
 
 def min_classes(tier):
-    return {"before-first": 150, "after-params": 150, "mid-stream": 150, "same-segment-as-end": 150, "between": 100, "abandoned-read-then-write": 6, "mixed-poll": 400}
+    return {"before-first": 150, "after-params": 150, "mid-stream": 150, "same-segment-as-end": 150, "between": 100, "inside-params-glued": 100, "abandoned-read-then-write": 6, "mixed-poll": 400}
 
 
 def signature(line, impl_line):
